@@ -128,6 +128,14 @@ fn main() {
                             f.extend_from_slice(&[x[0], x[1]]);
                         }
                     }
+                    "compress_sched" => {
+                        // structured target: random bytes are already meaningful
+                        for _ in 0..6 {
+                            f.extend_from_slice(&mzv::oracle::sums::splitmix64(&mut s).to_le_bytes());
+                        }
+                        std::fs::write(dir.join(format!("seed-{i:05}")), &f).expect("write seed");
+                        continue;
+                    }
                     _ => {
                         f.push((r as u8 & 0xfe) | zl as u8);
                         f.push((r >> 8) as u8);
